@@ -104,6 +104,14 @@ fn main() {
             for t in toks { println!("lol {t}"); }
             println!("lol res {res}");
         }
+        Some("gen-c15-shape") => {
+            // lh gen-c15-shape <tier> <seed> <outdir> <shape index>   (child of job c15)
+            let tier = args.get(2).map(|s| s.as_str()).unwrap_or("quick");
+            let seed: u64 = args.get(3).and_then(|s| s.parse().ok()).unwrap_or(1);
+            let outdir = args.get(4).map(|s| s.as_str()).unwrap_or("work");
+            let si: usize = args.get(5).and_then(|s| s.parse().ok()).unwrap_or(0);
+            props::stream::job_c15_shape_child(outdir, tier, seed, si);
+        }
         Some("gen") => {
             // lh gen <job> <tier> <seed> <outdir>
             let job = args.get(2).expect("job");
